@@ -24,6 +24,9 @@ Operation histories (plain data) are interpreted against the real stack:
   (second link idle; against the raw peer with asymmetric CIDs), requests at and one below exhaustion, re-use of
   the lowest / a middle / the highest CID; the signalling identifier (1..255) wrapping while the first request
   of the connection is still unanswered.
+* directed families on the fault points: every kind of operation with the link cut t ms after its start (t sweeps
+  its duration), opens issued t ms into a cut, and opens issued k single loop iterations into a cut (for one k the
+  disconnection event is queued ahead of the open's first step).
 
 The oracle compares the ChannelManager tables with the channels *reported open* by the channel
 objects the harness has been handed (open results, server callbacks), a small history model
@@ -48,7 +51,8 @@ RULE = (
     'world: histories of open(le|enh x 1..5|classic, link, end, psm)/open-by-both-ends(link, gap)/open-to-unserved-psm/'
     'close(channel, end)/close-by-both-ends(channel, gap)/abort(channel, end)/disconnect-then-abort(channel, end, gap)/'
     'abort(channel with a pending disconnect)/abort-peer-end-then-disconnect-then-abort(channel, gap)/'
-    'drain(channel, end, bytes)/cut(link | link of the last op, end)/reconnect(link) over 1 central + 1..3 '
+    'drain(channel, end, bytes)/cut(link | link of the last op, end)/reconnect(link)/step(k single loop iterations '
+    'before the next operation) over 1 central + 1..3 '
     'peripherals (LE links, LE links also carrying classic channels, or BR/EDR links), 1..3 served PSMs per '
     'kind on every device, per-device order-preserving HCI delays; each op is started as a task and followed '
     'by a generated wait (0..34 ms = left in flight, -1 = run to quiescence, invariants checked; links without '
@@ -71,7 +75,11 @@ RULE = (
     'signalling identifiers, the request that meets identifier 1 again (le|enh x le|enh), cut. '
     'cutpoints (sharded): (transport, kind) in {le:le, le:enh, classic:cl, le+cl:cl, le+cl:le} x operation under cut '
     '{open x3, close, close-by-both, disconnect-then-abort, drain 300} x cut t ms after its start (t = 0..34; quick: '
-    '0, 1, 3, 6, 10, 15) x cutting end x 2 HCI delay profiles, second link idle, then reconnect and re-open. '
+    '0, 1, 3, 6, 10, 15) x cutting end x 2 HCI delay profiles, second link idle, then reconnect and re-open; the same with '
+    'the cut first and an open (one end / both ends) issued t ms into it (thorough only); races (sharded): cut, '
+    'k = 0..9 (quick 0..5) '
+    'single loop iterations, open by either end, 5 (transport, kind) pairs, no delays - for one k the disconnection '
+    'event and the first step of the open are queued together (thorough: also t = 0..15 ms x k = 1, 2 with delays). '
     'non-trivial = an open after a close/refusal/abort on the '
     'same connection, or operations in flight on two links at once, or a link cut with an operation pending, '
     'or an abort of a channel whose disconnect is pending, or (raw, rawcl) a CID re-used after close; '
@@ -79,7 +87,9 @@ RULE = (
 )
 ASSUMPTIONS = [
     'hang = task still pending after 1900 virtual seconds of quiescence (Bumble has no L2CAP signalling timeout)',
-    'operations are only issued on links whose two ends are alive when the operation starts (a cut may be in flight)',
+    'operations are only issued on links whose two ends are alive when the operation starts (a cut may be in flight); '
+    'alive = the application has not been handed a disconnection event for its Connection yet - the event may already '
+    'be queued in the loop, ahead of the first step of the operation (a schedule no application can exclude)',
     'channel.abort() is a local teardown: the other end legitimately stays open (an "orphan"); while an orphan '
     'exists on a link, credit-based opens on that link may be refused (source CID already allocated) and a '
     'close of the orphan may stay pending until the link goes away or abort() is called on the closing end',
@@ -245,6 +255,8 @@ def world_ops(max_ops):
         # link -1 = the link of the operation started last
         st.tuples(st.just('cut'), st.sampled_from([-1, -1, 0, 1, 2]), side, wait),
         st.tuples(st.just('reconnect'), link),
+        # pure scheduling: the next operation is issued after this many single iterations of the loop
+        st.tuples(st.just('step'), st.integers(1, 6)),
     )
     return st.tuples(open_op, st.lists(op, min_size=3, max_size=max_ops - 1)).map(lambda t: [t[0]] + t[1])
 
@@ -292,6 +304,10 @@ def run_world_case(ctx, case) -> None:
              'ops': ops[: cur['step'] + 1]}
         ctx.fail(sig, what, c)
         raise _Stop()
+
+    def run_loop(duration):
+        cur['runs'] = cur.get('runs', 0) + 1  # the harness regains control between two runs of the loop
+        loop.run_for(duration)
 
     def node_of(link, side):
         return 0 if side == 0 else link.idx + 1
@@ -355,6 +371,12 @@ def run_world_case(ctx, case) -> None:
             _, link, epoch, side = ev
             if link.epoch == epoch:
                 link.alive[side] = False
+                for o in pending:
+                    # the disconnection reached this end during the very first run of the loop after the open was
+                    # issued: disconnection event and first step of the open were queued together, in either order
+                    if (o.what == 'open' and o.link is link and o.epoch == epoch and o.side == side
+                            and o.run == cur.get('runs', 0) - 1):
+                        labels.add('open_queued_with_disconnection')
             return
         if ev[0] == 'server':
             _, node, ch = ev
@@ -635,7 +657,7 @@ def run_world_case(ctx, case) -> None:
         task = loop.create_task(coro)
         cur['last_link'] = link
         link.dirty = True
-        op = Op(step, what, task, link, side, **kw)
+        op = Op(step, what, task, link, side, run=cur.get('runs', 0), **kw)
         pending.append(op)
         task.add_done_callback(lambda _t, op=op: evq.append(('done', op)))
         return op
@@ -648,12 +670,18 @@ def run_world_case(ctx, case) -> None:
 
     def do_op(step, op):
         what = op[0]
+        if what == 'step':
+            # pure scheduling: let the loop run op[1] single iterations (no virtual time passes), then go on at once
+            for _ in range(op[1]):
+                run_loop(0)
+                reap()
+            return 0
         if what == 'open_both':
             kind, lk, first, psm_i, n, gap, wait = op[1:]
             if do_op(step, ['open', kind, lk, first, psm_i, n, 0]) < 0:
                 return -1
             link = cur['last_link']
-            loop.run_for(gap / 1000.0)
+            run_loop(gap / 1000.0)
             reap()
             if link.up:
                 do_op(step, ['open', kind, links.index(link), 1 - first, psm_i, n, 0])
@@ -718,7 +746,7 @@ def run_world_case(ctx, case) -> None:
             other = e.chan.other(side)
             for k, x in enumerate((e, other)):
                 if k == 1:
-                    loop.run_for(gap / 1000.0)
+                    run_loop(gap / 1000.0)
                     reap()
                     if report(x.obj) != 'open' or x.close_started or x.aborted:
                         labels.add('close_both_too_late')
@@ -764,7 +792,7 @@ def run_world_case(ctx, case) -> None:
             if what == 'orphan_close_abort':
                 # the peer's end is torn down locally first: this end's Disconnection Request will never be answered
                 abort_end(e.chan.other(side))
-                loop.run_for(0.008)
+                run_loop(0.008)
                 reap()
                 if not (link.up and report(e.obj) == 'open'):
                     return wait
@@ -774,7 +802,7 @@ def run_world_case(ctx, case) -> None:
                 e.close_started = True
                 labels.add('close_by_central' if side == 0 else 'close_by_peripheral')
                 close_op = start(step, 'close', e.obj.disconnect(), link, side, end=e)
-                loop.run_for(op[3] / 1000.0)
+                run_loop(op[3] / 1000.0)
                 reap()
             if not close_op.task.done():
                 labels.add('abort_while_closing')
@@ -882,7 +910,7 @@ def run_world_case(ctx, case) -> None:
                 cur['step'] = step
                 wait = do_op(step, op)
                 if wait < 0:
-                    loop.run_for(QUIESCE)
+                    run_loop(QUIESCE)
                     if loop.budget_hit:
                         labels.add('iteration_budget_hit')
                         break
@@ -891,7 +919,7 @@ def run_world_case(ctx, case) -> None:
                     for link in links:
                         link.dirty = False
                 else:
-                    loop.run_for(wait / 1000.0)
+                    run_loop(wait / 1000.0)
                     if loop.budget_hit:
                         labels.add('iteration_budget_hit')
                         break
@@ -900,7 +928,7 @@ def run_world_case(ctx, case) -> None:
                         labels.add('independence_checked')
                         check_quiescent(clean_only=True)
             else:
-                loop.run_for(QUIESCE)
+                run_loop(QUIESCE)
                 if not loop.budget_hit:
                     reap()
                     check_quiescent()
@@ -1961,20 +1989,56 @@ def cutpoint_world_cases(quick):
     cases = []
     times = (0, 1, 3, 6, 10, 15) if quick else tuple(range(0, 35))
     for transport, kind in (('le', 'le'), ('le', 'enh'), ('classic', 'cl'), ('le+cl', 'cl'), ('le+cl', 'le')):
-        for target in ('open', 'close', 'close_both', 'close_abort', 'drain'):
+        for target in ('open', 'close', 'close_both', 'close_abort', 'drain', 'late_open', 'late_open_both'):
             if target == 'drain' and kind == 'cl':
                 continue
+            if quick and target.startswith('late_open'):
+                continue  # thorough tier only; the quick tier has the single-iteration races instead
             for ti, t in enumerate(times):
                 for cs in ((ti % 2,) if quick else (0, 1)):
                     s = (t + cs) % 2
-                    op = {'open': ['open', kind, 0, s, 2, 3, t], 'close': ['close', 0, s, t],
-                          'close_both': ['close_both', 0, s, 1, t], 'close_abort': ['close_abort', 0, s, 2, t],
-                          'drain': ['drain', 0, s, 300, t]}[target]
-                    ops = [['open', kind, 0, s, 0, 2, -1], ['open', kind, 0, 1 - s, 1, 1, -1], op,
-                           ['cut', -1, cs, -1], ['reconnect', 0], ['open', kind, 0, 1 - s, 0, 2, -1],
+                    if target.startswith('late_open'):
+                        # the other way round: the cut is started first, the open is issued t ms into it - as long as
+                        # the application has not been told of the disconnection it may issue operations
+                        late = (['open', kind, 0, s, 2, 2, -1] if target == 'late_open'
+                                else ['open_both', kind, 0, s, 2, 1, 0, -1])
+                        mid = [['cut', 0, cs, t], late]
+                    else:
+                        op = {'open': ['open', kind, 0, s, 2, 3, t], 'close': ['close', 0, s, t],
+                              'close_both': ['close_both', 0, s, 1, t], 'close_abort': ['close_abort', 0, s, 2, t],
+                              'drain': ['drain', 0, s, 300, t]}[target]
+                        mid = [op, ['cut', -1, cs, -1]]
+                    ops = [['open', kind, 0, s, 0, 2, -1], ['open', kind, 0, 1 - s, 1, 1, -1]] + mid + [
+                           ['reconnect', 0], ['open', kind, 0, 1 - s, 0, 2, -1],
                            ['close', 0, s, -1], ['open', kind, 0, s, 1, 1, -1]]
                     delays = [[1, 2], [2], [3, 1], []] if (t + len(cases)) % 2 else [[0, 3], [5], [1], []]
                     cases.append({'kind': 'world', 'transport': transport, 'nper': 2, 'npsm': 3, 'delays': delays, 'ops': ops})
+    return cases
+
+
+def race_world_cases(quick):
+    """Directed: a link disconnection is started, the loop is advanced by k single iterations, then an open is issued by
+    either end - for one k the disconnection event and the first step of the open are queued together."""
+    cases = []
+    pairs = (('le', 'le'), ('le', 'enh'), ('classic', 'cl'), ('le+cl', 'cl'), ('le+cl', 'le'))
+    for transport, kind in pairs:
+        for cs in (0, 1):
+            for s in (0, 1):
+                for k in range(6 if quick else 10):
+                    ops = [['open', kind, 0, s, 0, 1, -1], ['cut', 0, cs, 0], ['step', k], ['open', kind, 0, s, 1, 2, -1],
+                           ['reconnect', 0], ['open', kind, 0, s, 0, 1, -1]]
+                    cases.append({'kind': 'world', 'transport': transport, 'nper': 1, 'npsm': 2,
+                                  'delays': [[], [], [], []], 'ops': ops})
+    if not quick:
+        for transport, kind in pairs[:3]:
+            for cs in (0, 1):
+                for s in (0, 1):
+                    for t in range(0, 16):
+                        for k in (1, 2):
+                            ops = [['open', kind, 0, s, 0, 1, -1], ['cut', 0, cs, t], ['step', k],
+                                   ['open', kind, 0, s, 1, 2, -1], ['reconnect', 0], ['open', kind, 0, s, 0, 1, -1]]
+                            cases.append({'kind': 'world', 'transport': transport, 'nper': 1, 'npsm': 2,
+                                          'delays': [[0, 3], [5], [1], []], 'ops': ops})
     return cases
 
 
@@ -2055,7 +2119,7 @@ def run(ctx) -> None:
     for c in fill_world_cases():
         run_world_case(ctx, c)
         ctx.label('family:fill_world')
-    for i, c in enumerate(cutpoint_world_cases(ctx.quick)):
+    for i, c in enumerate(cutpoint_world_cases(ctx.quick) + race_world_cases(ctx.quick)):
         if i % ctx.nshards == ctx.shard:
             run_world_case(ctx, c)
             ctx.label('family:cutpoints')
@@ -2094,7 +2158,7 @@ def run(ctx) -> None:
     # extension: boundary of the identifier space (directed families: one label per case)
     if ctx.nshards == 1:  # the cut-point family is sharded in the thorough tier
         for label in ('cut_during:open:le', 'cut_during:open:enh', 'cut_during:open:cl', 'cut_during:close:le',
-                      'cut_during:close:enh', 'cut_during:close:cl', 'cut_during:drain:le'):
+                      'cut_during:close:enh', 'cut_during:close:cl', 'cut_during:drain:le', 'open_queued_with_disconnection'):
             ctx.floor(label, 5)
     ctx.floor('dut_identifier_wrapped', 4)
     ctx.floor('open_excused:identifier_awaited', 1)
